@@ -132,6 +132,7 @@ def hist_layer(seed: int, n_hist: int, steps: int, opts: Dict[str, Any] | None =
             "triples": sorted(triples),
             "sample": next((p["sample"] for p in parts if p["sample"]), None),
             "wall_s": round(time.time() - t0, 2),
+            "opts": opts,
         }
 
     return fw.cached("hist", {"seed": seed, "n": n_hist, "steps": steps, "opts": opts}, compute)
